@@ -1,7 +1,7 @@
 (* C15, stage 4a: integer constants (any number of minus signs, decimal or 0x hexadecimal, i64 range) and double
    constants (the three body forms, exponents that are integer constants), as spelled by the layout. *)
 From PVIdl Require Import Comb Ast Parser Print Proofs.Total Proofs.RoundTok Proofs.RoundPath Proofs.RoundAnn Proofs.RoundTy
-  Proofs.RoundKit.
+  Proofs.RoundKit Proofs.Lex.
 From Coq Require Import ZifyN ZifyNat ZifyBool.
 From Coq Require String.
 Import String.StringSyntax.
@@ -49,17 +49,16 @@ Proof.
   change (digits_value radix ds) with (fold_left (stepf radix) ds 0%Z) in *. replace (_ <=? max)%Z with true by lia. reflexivity.
 Qed.
 
+Lemma parse_unsigned_none radix max ds : (1 <= radix)%Z -> (0 <= max)%Z -> (max < digits_value radix ds)%Z ->
+  parse_unsigned radix max ds = None.
+Proof.
+  intros Hr Hm Hv. unfold parse_unsigned. rewrite (digits_val_fold radix max Hr ds 0%Z) by lia.
+  change (digits_value radix ds) with (fold_left (stepf radix) ds 0%Z) in *. replace (_ <=? max)%Z with false by lia. reflexivity.
+Qed.
+
 (* ---------- first bytes ---------- *)
 Definition nominus (k : list byte) : bool := hd_sat (fun b => negb (Byte.eqb b x2d)) k.
 
-Lemma hexdigit_identch b : is_hexdigit b = true -> identch b = true.
-Proof. destruct b; vm_compute; intro H; try reflexivity; discriminate H. Qed.
-Lemma digit_hexdigit b : is_digit b = true -> is_hexdigit b = true.
-Proof. destruct b; vm_compute; intro H; try reflexivity; discriminate H. Qed.
-Lemma digit_identch b : is_digit b = true -> identch b = true.
-Proof. intros H. apply hexdigit_identch, digit_hexdigit, H. Qed.
-Lemma hexdigit_nominus b : is_hexdigit b = true -> negb (Byte.eqb b x2d) = true.
-Proof. destruct b; vm_compute; intro H; try reflexivity; discriminate H. Qed.
 
 Lemma nid_nohex k : nid k = true -> hd_sat (fun b => negb (is_hexdigit b)) k = true.
 Proof.
@@ -85,29 +84,35 @@ Proof.
     rewrite (IH rest f Hr) by (cbn [length] in Hf; lia). reflexivity.
 Qed.
 
-Lemma dec_not_hex ds k : ds <> [] -> forallb is_digit ds = true -> nid k = true -> is_perr (tag sym_int_hex (ds ++ k)).
-Proof.
-  intros Hne Hd Hk. destruct ds as [|d ds]; [contradiction|]. unfold tag. change sym_int_hex with [x30; x78].
-  cbn [app strip_prefix]. destruct (Byte.eqb d x30); [|exact I].
-  cbn [forallb] in Hd. apply andb_prop in Hd. destruct Hd as [_ Hd]. destruct ds as [|d2 ds].
-  - cbn [app]. destruct k as [|c k]; [exact I|]. destruct (Byte.eqb c x78) eqn:E; [|exact I].
-    apply byte_dec_bl in E. subst c. discriminate Hk.
-  - cbn [app]. destruct (Byte.eqb d2 x78) eqn:E; [|exact I]. apply byte_dec_bl in E. subst d2. discriminate Hd.
-Qed.
-
 Lemma len_minus n k : length (minus_run n k) = n + length k.
 Proof. induction n; cbn [minus_run length]; lia. Qed.
 
 Definition int_hex : parser Z := fun i => do i, _ <- tag sym_int_hex i ;; map_res hex_digit1 (parse_unsigned 16 i64_max) i.
+
+(* the hexadecimal alternative fails on a decimal constant -- unless the constant is the digit 0 and 'x' with
+   hexadecimal digits within i64 follows *)
+Lemma dec_not_hex ds k : ds <> [] -> forallb is_digit ds = true -> (is_zero ds && hex_continues k) = false ->
+  is_perr (int_hex (ds ++ k)).
+Proof.
+  intros Hne Hd Hz. destruct ds as [|d ds]; [contradiction|]. unfold int_hex, tag. change sym_int_hex with [x30; x78].
+  cbn [app strip_prefix]. destruct (Byte.eqb d x30) eqn:E0; [|exact I].
+  cbn [forallb] in Hd. apply andb_prop in Hd. destruct Hd as [_ Hd]. destruct ds as [|d2 ds].
+  - cbn [app]. destruct k as [|c k]; [exact I|]. destruct (Byte.eqb c x78) eqn:E; [|exact I].
+    cbn [pbind]. cbn [is_zero hex_continues] in Hz. rewrite E0, E in Hz. cbn [andb] in Hz.
+    unfold map_res, hex_digit1, span1. destruct (span_run is_hexdigit k) as [r [-> [Ek [Hr Hf]]]].
+    destruct (run is_hexdigit k) as [|h hs] eqn:Eh; [exact I|]. cbn [is_nil negb andb] in Hz. cbn [is_nil].
+    rewrite parse_unsigned_none; [exact I|lia|unfold i64_max; lia|unfold i64_max; lia].
+  - cbn [app]. destruct (Byte.eqb d2 x78) eqn:E; [|exact I]. apply byte_dec_bl in E. subst d2. discriminate Hd.
+Qed.
 Definition int_alts : list (parser Z) := [ int_hex; map_res digit1 (parse_unsigned 10 i64_max) ].
 Lemma p_int_eq lf i : p_int_constant lf i =
   (do i, minus <- many0_count lf (tag sym_int_minus) i ;; do i, v <- alt int_alts i ;; POk i (if Nat.odd minus then (- v)%Z else v)).
 Proof. reflexivity. Qed.
 
-Theorem rt_int lf i k : wf_int i = true -> nid k = true -> length (pr_int i k) < lf ->
+Theorem rt_int lf i k : wf_int i = true -> int_stops i k = true -> length (pr_int i k) < lf ->
   p_int_constant lf (pr_int i k) = POk k (erase_int i).
 Proof.
-  intros Hw Hk Hf. destruct i as [n hex ds]. unfold wf_int, pr_int, erase_int, int_abs in *.
+  intros Hw Hk Hf. destruct i as [n hex ds]. unfold wf_int, pr_int, erase_int, int_abs, int_stops in *.
   cbn [ci_minus ci_hex ci_digits] in *. bsplit Hw. rename W0 into Wd. rename W into Wr.
   assert (Hne : ds <> []) by (intros ->; discriminate Hw).
   rewrite p_int_eq.
@@ -120,11 +125,13 @@ Proof.
     assert (E : alt l i = POk k (digits_value (if hex then 16%Z else 10%Z) ds)) end.
   { unfold int_alts. destruct hex.
     - apply alt_ok. unfold int_hex. change sym_int_hex with (txt "0x"). rewrite tag_ok. cbn [pbind].
-      unfold map_res, hex_digit1, span1. rewrite (span_app_stop is_hexdigit ds k Wd (nid_nohex k Hk)).
+      apply negb_true_iff in Hk.
+      unfold map_res, hex_digit1, span1. rewrite (span_app_stop is_hexdigit ds k Wd (hd_is_sat _ k Hk)).
       destruct ds; [contradiction|]. cbn [is_nil].
       rewrite parse_unsigned_value by (try lia; unfold i64_max; lia). reflexivity.
-    - cbn [app]. rewrite alt_err by (unfold int_hex; apply pbind_err; now apply dec_not_hex).
-      cbn [alt]. unfold map_res, digit1, span1. rewrite (span_app_stop is_digit ds k Wd (nid_nodigit k Hk)).
+    - cbn [app]. apply andb_prop in Hk. destruct Hk as [Hk Hz]. apply negb_true_iff in Hk, Hz.
+      rewrite alt_err by (now apply dec_not_hex).
+      cbn [alt]. unfold map_res, digit1, span1. rewrite (span_app_stop is_digit ds k Wd (hd_is_sat _ k Hk)).
       destruct ds; [contradiction|]. cbn [is_nil].
       rewrite parse_unsigned_value by (try lia; unfold i64_max; lia). reflexivity. }
   rewrite E. reflexivity.
@@ -159,23 +166,58 @@ Proof.
   destruct (Byte.eqb (lower_ascii b) (lower_ascii x65)) eqn:E; [|exact I].
   exfalso. cbn in H. revert E H. clear. destruct b; vm_compute; congruence.
 Qed.
+Lemma lower_e b : Byte.eqb (lower_ascii b) (lower_ascii x65) = (Byte.eqb b x65 || Byte.eqb b x45).
+Proof. destruct b; reflexivity. Qed.
+Lemma e_cases b : (Byte.eqb b x65 || Byte.eqb b x45) = true -> exists u, b = ebyte u.
+Proof. intros H. apply orb_prop in H. destruct H as [H|H]; apply byte_dec_bl in H; subst; [exists false|exists true]; reflexivity. Qed.
+
+(* no integer constant is read where none starts *)
+Lemma int_starts_err lf k : int_starts k = false -> length k < lf -> is_perr (p_int_constant lf k).
+Proof.
+  intros Hs Hf. unfold int_starts in Hs. destruct (skip_minus_spec k) as [n [Ek Hm]]. set (t := skip_minus k) in *.
+  rewrite p_int_eq. rewrite Ek at 1. rewrite minus_loop; [|now apply hd_is_sat|rewrite <- Ek; exact Hf]. cbn [pbind].
+  apply pbind_err. destruct (span_run is_digit t) as [r [Es [Et [Hr Hd]]]]. unfold int_alts.
+  destruct (run is_digit t) as [|d ds] eqn:Ed.
+  - cbn [app] in Et. subst r.
+    rewrite alt_err by (unfold int_hex; apply pbind_err; apply (tag_hd_err (fun b => negb (is_digit b))); [reflexivity|now apply hd_is_sat]).
+    apply alt_last_err. unfold map_res, digit1, span1. rewrite Es. exact I.
+  - cbn [is_nil negb andb] in Hs. rewrite Et.
+    assert (Hz : (is_zero (d :: ds) && hex_continues r) = false).
+    { destruct (is_zero (d :: ds)) eqn:Ez; [|reflexivity]. exfalso. destruct ds; [|discriminate Ez]. cbn [is_zero] in Ez.
+      apply byte_dec_bl in Ez. subst d. discriminate Hs. }
+    rewrite alt_err by (apply dec_not_hex; [discriminate|exact Hd|exact Hz]).
+    apply alt_last_err. unfold map_res, digit1, span1. rewrite <- Et, Es. cbn [is_nil].
+    rewrite parse_unsigned_none; [exact I|lia|unfold i64_max; lia|unfold i64_max; lia].
+Qed.
 
 Section Dbl.
 Variable lf : nat.
 
-Lemma rt_exp e0 e k : e0 = [x65] -> wf_exp e = true -> nid k = true -> length (pr_exp e k) < lf ->
+Lemma rt_exp e0 e k : e0 = [x65] -> wf_exp e = true -> int_stops (ce_int e) k = true -> length (pr_exp e k) < lf ->
   p_exponent lf e0 (pr_exp e k) = POk k tt.
 Proof.
   intros E0 Hw Hk Hf. destruct e as [u i]. unfold wf_exp, pr_exp, p_exponent in *. cbn [ce_upper ce_int] in *.
   change (if u then x45 else x65) with (ebyte u). rewrite (tag_nc_e e0 u _ E0). cbn [pbind]. rewrite (rt_int lf i k Hw Hk) by (cbn [length] in Hf; lia). reflexivity.
 Qed.
 
-Lemma rt_oexp e0 e k : e0 = [x65] -> wf_oexp e = true -> nid k = true -> length (pr_oexp e k) < lf ->
+Lemma exp_starts_err e0 k : e0 = [x65] -> exp_starts k = false -> length k < lf -> is_perr (p_exponent lf e0 k).
+Proof.
+  intros -> Hs Hf. unfold p_exponent. destruct k as [|b k]; [exact I|]. cbn [exp_starts] in Hs.
+  destruct (Byte.eqb b x65 || Byte.eqb b x45) eqn:E.
+  - destruct (e_cases b E) as [u ->]. rewrite (tag_nc_e [x65] u k eq_refl). cbn [pbind]. apply pbind_err.
+    apply int_starts_err; [exact Hs|cbn [length] in Hf; lia].
+  - apply pbind_err. unfold tag_no_case. cbn [strip_prefix_nc]. rewrite lower_e, E. exact I.
+Qed.
+
+Definition oexp_stops (e : option cexp) (k : list byte) : bool :=
+  match e with Some e => int_stops (ce_int e) k | None => negb (exp_starts k) end.
+
+Lemma rt_oexp e0 e k : e0 = [x65] -> wf_oexp e = true -> oexp_stops e k = true -> length (pr_oexp e k) < lf ->
   exists o, opt (p_exponent lf e0) (pr_oexp e k) = POk k o.
 Proof.
-  intros E0 Hw Hk Hf. destruct e as [e|]; cbn [pr_oexp wf_oexp] in *.
+  intros E0 Hw Hk Hf. destruct e as [e|]; cbn [pr_oexp wf_oexp oexp_stops] in *.
   - exists (Some tt). apply opt_ok. now apply rt_exp.
-  - exists None. apply opt_err. unfold p_exponent. apply pbind_err. now apply tag_nc_e_err.
+  - exists None. apply opt_err. apply negb_true_iff in Hk. now apply exp_starts_err.
 Qed.
 
 Lemma exp_head (f : byte -> bool) e k : f x45 = true -> f x65 = true -> hd_sat f (pr_exp e k) = true.
@@ -222,10 +264,27 @@ Definition dbl_alts : list (parser unit) := [dbl_a; dbl_b; dbl_c].
 Lemma nd_e (u : bool) r : hd_sat (fun b => negb (is_digit b)) (ebyte u :: r) = true.
 Proof. destruct u; reflexivity. Qed.
 
-Lemma rt_dbody b k : wf_dbody b = true -> nid k = true -> length (pr_dbody b k) < lf ->
+(* the body of a double ends where k begins *)
+Definition dbody_stops (b : cdbody) (k : list byte) : bool :=
+  match b with
+  | DBodyA _ _ None | DBodyB _ None => negb (hd_is is_digit k) && negb (exp_starts k)
+  | DBodyA _ _ (Some e) | DBodyB _ (Some e) | DBodyC _ e => int_stops (ce_int e) k
+  end.
+Lemma dbl_stops_body d k : dbl_stops d k = dbody_stops (cd_body d) k.
+Proof. reflexivity. Qed.
+
+Lemma oexp_stops_of ex k : (match ex with None => negb (hd_is is_digit k) && negb (exp_starts k) | Some e => int_stops (ce_int e) k end) = true ->
+  oexp_stops ex k = true /\ hd_sat (fun c => negb (is_digit c)) (pr_oexp ex k) = true.
+Proof.
+  destruct ex as [e|]; cbn [oexp_stops pr_oexp]; intros H.
+  - split; [exact H|]. destruct e as [[|] i]; reflexivity.
+  - apply andb_prop in H. destruct H as [H1 H2]. split; [exact H2|]. apply hd_is_sat. now apply negb_true_iff in H1.
+Qed.
+
+Lemma rt_dbody b k : wf_dbody b = true -> dbody_stops b k = true -> length (pr_dbody b k) < lf ->
   alt dbl_alts (pr_dbody b k) = POk k tt.
 Proof.
-  intros Hw Hk Hf. pose proof (nid_nodigit k Hk) as Hnd. unfold dbl_alts, dbl_a, dbl_b, dbl_c.
+  intros Hw Hk Hf. unfold dbl_alts, dbl_a, dbl_b, dbl_c.
   destruct b as [ip fp ex|fp ex|ip ex]; cbn [pr_dbody wf_dbody] in *; bsplit Hw.
   - (* d+ . d* [exp] *)
     assert (Nip : negb (is_nil ip) = true) by assumption. assert (Dip : is_digits ip = true) by assumption.
@@ -234,8 +293,11 @@ Proof.
     apply alt_ok. rewrite (digit1_ok ip) by (auto; reflexivity). cbn [pbind].
     change sym_dbl_dot_a with [x2e]. change (x2e :: fp ++ pr_oexp ex k) with ([x2e] ++ fp ++ pr_oexp ex k).
     rewrite tag_ok. cbn [pbind].
-    destruct (odigit1 fp (pr_oexp ex k) Dfp) as [o ->]; [apply oexp_head; auto|]. cbn [pbind].
-    destruct (rt_oexp sym_dbl_exp_a ex k eq_refl Wex Hk) as [o2 ->]; [|reflexivity].
+    assert (Hk' : oexp_stops ex k = true /\ hd_sat (fun c => negb (is_digit c)) (pr_oexp ex k) = true).
+    { apply oexp_stops_of. destruct ex; exact Hk. }
+    destruct Hk' as [Hk1 Hk2].
+    destruct (odigit1 fp (pr_oexp ex k) Dfp Hk2) as [o ->]. cbn [pbind].
+    destruct (rt_oexp sym_dbl_exp_a ex k eq_refl Wex Hk1) as [o2 ->]; [|reflexivity].
     rewrite !app_length in Hf. cbn [length] in Hf. rewrite app_length in Hf. lia.
   - (* . d+ [exp] *)
     assert (Nfp : negb (is_nil fp) = true) by assumption. assert (Dfp : is_digits fp = true) by assumption.
@@ -245,8 +307,11 @@ Proof.
     apply alt_ok. rewrite (opt_err digit1) by exact I. cbn [pbind].
     change sym_dbl_dot_b with [x2e]. change (x2e :: fp ++ pr_oexp ex k) with ([x2e] ++ fp ++ pr_oexp ex k).
     rewrite tag_ok. cbn [pbind].
-    rewrite (digit1_ok fp) by (auto; apply oexp_head; auto). cbn [pbind].
-    destruct (rt_oexp sym_dbl_exp_b ex k eq_refl Wex Hk) as [o2 ->]; [|reflexivity].
+    assert (Hk' : oexp_stops ex k = true /\ hd_sat (fun c => negb (is_digit c)) (pr_oexp ex k) = true).
+    { apply oexp_stops_of. destruct ex; exact Hk. }
+    destruct Hk' as [Hk1 Hk2].
+    rewrite (digit1_ok fp) by auto. cbn [pbind].
+    destruct (rt_oexp sym_dbl_exp_b ex k eq_refl Wex Hk1) as [o2 ->]; [|reflexivity].
     cbn [length] in Hf. rewrite app_length in Hf. lia.
   - (* d+ exp *)
     assert (Nip : negb (is_nil ip) = true) by assumption. assert (Dip : is_digits ip = true) by assumption.
@@ -291,12 +356,12 @@ Definition dbl_inner : parser unit :=
 Lemma p_dbl_eq i : p_double_constant lf i = map_res (recognize dbl_inner) (fun s => Some s) i.
 Proof. reflexivity. Qed.
 
-Theorem rt_dbl d k : wf_dbl d = true -> nid k = true -> length (pr_dbl d k) < lf ->
+Theorem rt_dbl d k : wf_dbl d = true -> dbl_stops d k = true -> length (pr_dbl d k) < lf ->
   p_double_constant lf (pr_dbl d k) = POk k (erase_dbl d).
 Proof.
   intros Hw Hk Hf. rewrite p_dbl_eq. unfold map_res, recognize, erase_dbl.
   assert (E : dbl_inner (pr_dbl d k) = POk k tt).
-  { unfold dbl_inner. destruct d as [m p b]. unfold pr_dbl, wf_dbl in *. cbn [cd_minus cd_plus cd_body] in *. cbn beta.
+  { unfold dbl_inner. rewrite dbl_stops_body in Hk. destruct d as [m p b]. unfold pr_dbl, wf_dbl in *. cbn [cd_minus cd_plus cd_body] in *. cbn beta.
     assert (L : length (pr_dbody b k) < lf).
     { rewrite !app_length in Hf. lia. }
     assert (Hm : is_perr (tag sym_dbl_minus (pr_dbody b k))).
